@@ -13,7 +13,7 @@ import tempfile
 
 VERIF = os.path.dirname(os.path.dirname(os.path.abspath(__file__)))
 sys.path.insert(0, VERIF)
-from selftest.mutants import MUTANTS   # noqa: E402
+from selftest.mutants import MUTANTS, HARMLESS   # noqa: E402
 
 
 def run_mutant(m, no_runtime=False, keep=False):
@@ -57,6 +57,16 @@ def main():
             bad += 1
         print(("CAUGHT " if ok else "MISSED ") + f"{m['id']} ({m['prop']}) rc={rc}", info if not ok else
               (info["static"][:1] or info["violations"][:1]))
+    for m in HARMLESS:
+        if a.props and m["prop"] not in a.props:
+            continue
+        if a.id and m["id"] != a.id:
+            continue
+        rc, info = run_mutant(m, a.no_runtime)
+        ok = rc == 0
+        if not ok:
+            bad += 1
+        print(("QUIET  " if ok else "FALSE-ALARM ") + f"{m['id']} ({m['prop']}) rc={rc}", "" if ok else info)
     return 1 if bad else 0
 
 
